@@ -17,7 +17,7 @@ from __future__ import annotations
 import itertools
 
 from .core import AnalysisError
-from .objmodel import ClassModel
+from .objmodel import ClassModel, install_re
 from .ordabs import ModelRaise, Obj, Sym
 from .repo import Repo
 
@@ -39,8 +39,7 @@ def program(repo: Repo, where: str) -> ClassModel:
     rels = [r for r in RELS if r in repo.py_files]
     restub = Obj("re", I=re.I, IGNORECASE=re.I, A=re.A, ASCII=re.A, VERSION1=256, V1=256)
     cm = ClassModel(repo, rels, where, {"re": restub, "ChoiceCase": Sym("ChoiceCase")}, max_steps=100000)
-    cm._cache[("re", "compile")] = lambda _s, pat, flags=0: Obj("Pattern", pattern=pat, flags=flags)  # noqa: SLF001
-    cm._cache[("re", "escape")] = lambda _s, x: re.escape(x)  # noqa: SLF001
+    install_re(cm)
     for need in ("Parser", "Token"):
         if need not in cm.classes:
             raise AnalysisError(f"anchor vanished: class {need} of the grammar front end")
